@@ -50,12 +50,12 @@ type EDINoise struct {
 
 // EDIDoc is a complete logical EDI input.
 type EDIDoc struct {
-	Conf     EDIConf    `json:"conf"`
-	Segs     []EDISeg   `json:"segs"`
-	Trailing string     `json:"trailing,omitempty"` // CR/LF run after the final segment delimiter (ignored by documentation)
+	Conf     EDIConf  `json:"conf"`
+	Segs     []EDISeg `json:"segs"`
+	Trailing string   `json:"trailing,omitempty"` // CR/LF run after the final segment delimiter (ignored by documentation)
 	// NoFinalDelim leaves the last segment without its segment delimiter (the input ends there): it is still a segment.
-	NoFinalDelim bool `json:"no_final_delim,omitempty"`
-	Noise    []EDINoise `json:"noise,omitempty"`
+	NoFinalDelim bool       `json:"no_final_delim,omitempty"`
+	Noise        []EDINoise `json:"noise,omitempty"`
 }
 
 // EDIElemDecl is an element declaration of a segment declaration.
